@@ -248,3 +248,9 @@ def seat_check(rig, case):
     if got != want:
         return ["after the recorded history the store is %r, the state being re-established by whole-tag writes was %r" % (got, want)]
     return []
+
+
+def representable(state):
+    """False if the canonical state holds an element that has no wire form in its tag's type (already reported as a violation where
+    it arose; such a state cannot be re-established through the API and is not explored further)"""
+    return not any(isinstance(v, tuple) for _, vals in state for v in vals)
